@@ -9,9 +9,8 @@ tables must satisfy.
   comparator    = ">=" | "<=" | "!=" | "<" | ">" | "="
 
 Accepted spellings of one expression: whitespace anywhere, any letter case for `vers` and for
-the scheme, stray `|` before and after the list, `=` written or omitted.  (A lone star accepts
-stray bars too, except the form `*|…` where the text starts with the star: the code tests
-`startswith("*")` before `strip("|")`.)
+the scheme, stray `|` before and after the list (also around the lone star), `=` written or
+omitted.
 -/
 import Univers.Text.Vers
 
@@ -83,35 +82,20 @@ def Renders (e : Expr) (t : List Char) : Prop :=
     lower uri = ['v', 'e', 'r', 's'] ∧
     lower scheme = e.scheme ∧
     Spelled e.items texts ∧
-    (e.items = [.star] → n = 0 → m = 0) ∧
     removeSpaces t = uri ++ ':' :: scheme ++ '/' :: (bars n ++ join ['|'] texts ++ bars m)
 
 /-! ### registry tables -/
 
-/-- every range class (outside `excluded`) that declares a scheme is registered under it -/
-def RegistryComplete (excluded : List String) : Prop :=
-  ∀ rc ∈ Gen.rangeClasses, ∀ s, rc.scheme = some s → rc.name ∉ excluded →
-    (s, rc.name) ∈ Gen.registry
+/-- every range class that declares a scheme is registered under it -/
+def RegistryComplete : Prop :=
+  ∀ rc ∈ Gen.rangeClasses, ∀ s, rc.scheme = some s → (s, rc.name) ∈ Gen.registry
 
-instance (excluded : List String) : Decidable (RegistryComplete excluded) := by
-  unfold RegistryComplete; infer_instance
+instance : Decidable RegistryComplete := by unfold RegistryComplete; infer_instance
 
 /-- every registry entry names a range class whose `scheme` is the key -/
 def RegistrySound : Prop :=
   ∀ p ∈ Gen.registry, ∃ rc ∈ Gen.rangeClasses, rc.name = p.2 ∧ rc.scheme = some p.1
 
 instance : Decidable RegistrySound := by unfold RegistrySound; infer_instance
-
-/-- the range classes known to be missing from `RANGE_CLASS_BY_SCHEMES` (defect of the code) -/
-def knownUnregistered : List String := ["AlpineLinuxVersionRange"]
-
-/-! ### declared errors -/
-
-/-- the region where `from_string` lets the `TypeError` of `list.sort()` escape: the loop
-succeeds and the list has a star next to a versioned constraint -/
-def starMixedInput (mkVer : MkVer) (t : List Char) : Bool :=
-  match fromStringItems mkVer t with
-  | .ok (_, items) => mixedStar items
-  | .error _ => false
 
 end Univers.Text.Vers
